@@ -4,6 +4,9 @@
 import json, subprocess
 
 BUILT = {
+ "C03": ("fault_enumeration", "crash image before every write and fsync a statement issues on the log (two cuts), recovered in fresh processes; prefix-state oracle; idempotence; continuation",
+         "Every log write/fsync of every armed statement is a crash point, in both cuts; armed statements and prefix histories are sampled.",
+         "process-death crash model; fsync cut applies to the log only; data file quiescent while logging (C13)"),
  "C01": ("exploration", "reference-model monitor: SELECT * of every table and the catalog compared with an in-memory model after every statement of seeded histories run on the real engine",
          "Held on the histories explored (hundreds to thousands per run, with leaf/internal/root/catalog splits, tombstones crossing splits, reloads); not a proof for all histories.",
          "trusted: Go runtime, the plain reference model, SELECT path used for observation"),
